@@ -18,10 +18,11 @@ def load_reservoir(**extra):
 class FluidStub:
     """Contract of a FlowProperties object: m_i > 0; alpha an (uninterpreted) positive function of scaled
     pseudopressure; m_scaled_func maps a frac-face pressure <= p_i into [0, m_i] (one fresh value per
-    distinct argument, equal arguments give equal values)."""
+    distinct argument, equal arguments give equal values; values may be negative unless `nonneg`)."""
 
-    def __init__(self, name="", density_rows=0):
+    def __init__(self, name="", density_rows=0, nonneg=False):
         self.name = name
+        self.nonneg = nonneg
         self.m_i = fresh(f"m_i{name}", pos=True)
         self._mf = {}
         self.pvt_props = {}
@@ -48,7 +49,10 @@ class FluidStub:
             v = fresh(f"mf{self.name}[{len(self._mf)}]")
             self._mf[key] = v
             c = ctx()
-            c.assume((lift(v) >= 0).node)
+            # the frac-face value is anywhere at or below the initial value: scaled pseudopressure may be negative below the
+            # reference pressure of a rescaled table (rescale_pseudopressure maps a chosen pressure to 0)
+            if self.nonneg:
+                c.assume((lift(v) >= 0).node)
             c.assume((lift(v) <= self.m_i).node)
         return v
 
